@@ -75,3 +75,62 @@ theorem clookup_set_unique (l : CLookup) (k : String) (c : LContainer) (h : Uniq
     exact uniqueKeys_append_new l k c h (Bool.eq_false_iff.mpr hk)
 
 end Spp
+
+namespace Spp
+
+theorem find_map_replace_same (l : CLookup) (k : String) (c : LContainer) (h : l.any (·.1 == k) = true) :
+    (l.map (fun kv => if kv.1 == k then (k, c) else kv)).find? (·.1 == k) = some (k, c) := by
+  induction l with
+  | nil => simp at h
+  | cons x xs ih =>
+    by_cases hx : (x.1 == k) = true
+    · simp only [List.map_cons, hx, if_true, List.find?_cons, BEq.rfl]
+    · have hx' : (x.1 == k) = false := by simpa using hx
+      have hrest : xs.any (·.1 == k) = true := by simpa [hx'] using h
+      simp only [List.map_cons, hx', Bool.false_eq_true, if_false, List.find?_cons]
+      exact ih hrest
+
+theorem find_map_replace_other (l : CLookup) (k a : String) (c : LContainer) (hne : a ≠ k) :
+    (l.map (fun kv => if kv.1 == k then (k, c) else kv)).find? (·.1 == a) = l.find? (·.1 == a) := by
+  induction l with
+  | nil => rfl
+  | cons x xs ih =>
+    by_cases hx : (x.1 == k) = true
+    · have hxk : x.1 = k := by simpa using hx
+      have h1 : (k == a) = false := by simpa using fun e => hne e.symm
+      have h2 : (x.1 == a) = false := by rw [hxk]; exact h1
+      simp only [List.map_cons, hx, if_true, List.find?_cons, h1, h2]
+      exact ih
+    · have hx' : (x.1 == k) = false := by simpa using hx
+      simp only [List.map_cons, hx', Bool.false_eq_true, if_false, List.find?_cons]
+      cases hxa : (x.1 == a)
+      · simp only []; exact ih
+      · rfl
+
+theorem clookup_get_set_same (l : CLookup) (k : String) (c : LContainer) (h : l.any (·.1 == k) = true) :
+    (l.set k c).get? k = some c := by
+  unfold CLookup.set CLookup.get?
+  rw [if_pos h, find_map_replace_same l k c h]; rfl
+
+theorem clookup_get_set_other (l : CLookup) (k a : String) (c : LContainer) (h : l.any (·.1 == k) = true) (hne : a ≠ k) :
+    (l.set k c).get? a = l.get? a := by
+  unfold CLookup.set CLookup.get?
+  rw [if_pos h, find_map_replace_other l k a c hne]
+
+theorem clookup_keys_set (l : CLookup) (k : String) (c : LContainer) (h : l.any (·.1 == k) = true) :
+    (l.set k c).map (·.1) = l.map (·.1) := by
+  unfold CLookup.set
+  rw [if_pos h, map_keys_replace]
+
+theorem clookup_any_iff_get (l : CLookup) (k : String) : l.any (·.1 == k) = true ↔ (l.get? k).isSome = true := by
+  unfold CLookup.get?
+  induction l with
+  | nil => simp
+  | cons x xs ih =>
+    by_cases hx : (x.1 == k) = true
+    · simp [List.find?_cons, hx]
+    · have hx' : (x.1 == k) = false := by simpa using hx
+      simp only [List.any_cons, hx', Bool.false_or, List.find?_cons]
+      exact ih
+
+end Spp
